@@ -36,7 +36,7 @@ theorem reassemble_two_fragments (a b : Nat) (ha : 3 ≤ a) :
   have ha0 : ¬ a = 0 := by omega
   by_cases hb : b = 0
   · subst hb
-    simp [fitsOnce, ha0]
+    simp [fitsOnce, ha0, RState.init]
   · simp only [fitsOnce, ha0, hb, if_false, hs, and_true]
     constructor
     · rintro ⟨_, h | h⟩ <;> omega
@@ -68,19 +68,14 @@ theorem reassemble_contiguous (sizes : List Nat) :
 theorem reassemble_cap_le (sizes : List Nat) :
     (stateAfter reasmGrowLoops RState.init sizes).cap ≤ 6 * sizes.sum + 16 ∧
     ((stateAfter reasmGrowLoops RState.init sizes).avail = 0 ↔ sizes.sum = 0) := by
+  show (stateAfter true RState.init sizes).cap ≤ _ ∧ ((stateAfter true RState.init sizes).avail = 0 ↔ _)
   have h := (run_loop_good sizes RState.init 0 good_init).2.2
   rw [Nat.zero_add] at h
-  have h0 : (stateAfter true RState.init sizes).avail = 0 → (stateAfter true RState.init sizes).cap = 0 ∨ sizes.sum = 0 := by
-    intro ha
-    rcases h with ⟨h1, _⟩ | ⟨_, h2, _⟩
-    · exact Or.inr h1
-    · omega
   rcases h with ⟨h1, h2⟩ | ⟨h1, h2, h3, h4⟩
-  · show (stateAfter true RState.init sizes).cap ≤ _ ∧ _
-    refine ⟨?_, fun _ => h1, fun _ => h2⟩
+  · refine ⟨?_, fun _ => h1, fun _ => h2⟩
     -- nothing stored: the state is still the initial one
     have : stateAfter true RState.init sizes = RState.init := by
-      clear h0 h2
+      clear h2
       induction sizes with
       | nil => rfl
       | cons L rest ih =>
@@ -127,25 +122,25 @@ example : endsWithTail [0x72, 0x04, 0x00, 0x00, 0x00, 0xff, 0xff] = true := by d
 
 /-- … and on no other stream of at least four bytes: `websocket_compress` only logs the mismatch and still
     returns the shortened data, so the receiver inflates something else. -/
-theorem tail_mismatch (s : Bytes) (h4 : tailStrip ≤ s.length) (ht : endsWithTail s = false) :
+theorem tail_mismatch (s : Bytes) (ht : endsWithTail s = false) :
     stripTail s ++ tail ≠ s := by
   intro h
-  have hl : (stripTail s).length = s.length - tailStrip := by
-    unfold stripTail; simp; omega
-  have : s.drop (s.length - tailStrip) = tail := by
-    conv => lhs; rw [← h]
-    rw [List.drop_left' (by rw [hl, List.length_append, hl]; simp [tail_length, tailStrip]; omega)]
+  have hl : (stripTail s).length = s.length - tailStrip := by unfold stripTail; simp
+  have hd : (stripTail s ++ tail).drop (s.length - tailStrip) = tail := List.drop_left' hl
+  rw [h] at hd
   unfold endsWithTail at ht
+  rw [hd] at ht
+  have : (tail == tail) = true := by decide
   rw [this] at ht
-  simp at ht
+  cases ht
 
-example : tailStrip ≤ ([1, 2, 3, 4, 5] : Bytes).length ∧ endsWithTail [1, 2, 3, 4, 5] = false := by decide
+example : endsWithTail [1, 2, 3, 4, 5] = false := by decide
 
 /-- the inflate output loop: for a non-empty initial buffer `have` is the number of bytes inflated, and
     every `inflate` call was given room inside the (doubled) buffer directly behind the previous one -/
 theorem outloop_bookkeeping (total s0 : Nat) (h : 0 < s0) :
     outHave total s0 = total ∧ chunksFrom 0 (outLoop (total + 2) total ⟨s0, s0, 0⟩).1 :=
-  ⟨outHave_eq total s0 h, outLoop_chunks _ _ _ h (by simp)⟩
+  ⟨outHave_eq total s0 h, outLoop_chunks _ _ ⟨s0, s0, 0⟩ h (Nat.zero_add s0)⟩
 
 example : 0 < inflateOutFactor * 1 := by decide
 
@@ -232,12 +227,12 @@ theorem response_params_legal (level : Nat) (hl : level < 4) (mem : Bytes) (leng
   have : (negotiate level mem length).smw ≠ 8 := hs
   omega
 
-/-- non-vacuity, and the bound of `response_len_le_buffer` is reached: level 1, all four parameters
+/-- non-vacuity, and the bound of `response_len_le_buffer` is reached: level 3, all four parameters
     offered — accepted, 128 bytes + NUL -/
 example :
     let offer : Bytes := extName ++ renderItem .cmw 15 ++ renderItem .smw 15 ++ renderItem .cnc 0 ++ renderItem .snc 0
-    (negotiate 1 offer offer.length).accepted = true ∧
-    (negotiate 1 offer offer.length).resp.length + 1 = responseMax := by
-  decide
+    (negotiate 3 offer offer.length).accepted = true ∧
+    (negotiate 3 offer offer.length).resp.length + 1 = responseMax := by
+  decide +kernel
 
 end Cjet.Props.C19
